@@ -28,6 +28,13 @@ CLAIMED = {
             "26 theorems in lean/LsProps/C19.lean about the model of strategy.Update / IterUpdate(iterBoth) / EmptyPut / setNewVal over an abstract iterator: key order laws incl. unsigned little-endian integer order on 4/8-byte keys, read-after-write algebra, exact equality with the pointwise specification for all stored contents and inputs, rejection of unsorted input, no-op and dirty-bit characterisation. Correspondence: exhaustive small scope and random large scope on real LMDB DBIs (byte and integer keys, 1..512-byte keys, empty values, unsorted/duplicate inputs, failing decisions), content, error class and LMDB's recorded-transaction bit compared.",
             "7/C19",
             "LMDB itself is modelled (sorted map; cursor enumerates the original key sequence; transaction recorded iff a Put / successful Del / Drop happened), validated by the correspondence runs. IterUpdate theorems assume stored keys are valid LMDB keys (1..511 bytes)."),
+    "C15": ("Lean 4 proof (round-trip, chronological = lexicographic order, injectivity, last-is-newest, no foreign prefix, parser accepts only well-formed names, sanitiser range) + differential correspondence of NameTimestamp/BuildName/ParseName/instanceID and property oracles on the real code",
+            "Theorems in lean/LsProps/C15.lean about the byte-level model of snapshot/name.go and the instance-id sanitiser: ParseName(BuildName(x)) = x for all safe-alphabet components, all extras and all timestamps 0 <= t < 2^63 ns; t1 < t2 iff name(t1) <_bytes name(t2) for fixed database and instance (whatever follows the timestamp), hence the last name of a sorted listing is the newest; a name of database d' never has the prefix d__ of another database; ParseName accepts only >= 4 __-separated fields + registered extension + 25-byte timestamp of an existing date/time and BuildName of the result gives the name back; every byte of a sanitised instance id is in [A-Za-z0-9-] for every input incl. invalid UTF-8. The civil-date conversion is proved invertible and monotone for all days 1970-01-01..2262-04-11 by kernel evaluation of the 106752-row table in 14 chunks lifted by lemmas. Model tied to code by regenerated layout/extension/character-class facts and byte-exact differential streams (boundary and random timestamps, every day of the range in the thorough tier, mutated names, invalid UTF-8). Recorded limit: ParseName also accepts non-canonical timestamp strings (signed fraction), theorem C15_foreign_noncanonical_witness.",
+            "7/C15", "time.Format/time.Parse for the one layout, strings.Cut/Split, regexp.ReplaceAllString with utf8 decoding for the one class are modelled by hand and compared against the real library on every run."),
+    "C04": ("Lean 4 proof (int64 retention arithmetic with wrap-around and truncated division; LWW lattice corollaries; stale-marker refusal) + differential correspondence of RetentionDurationMinusCutoff and the merge routine",
+            "Theorems in lean/LsProps/C04.lean: 0 <= load-cutoff duration <= retention for every non-negative retention and every int64 cut-off setting (zero, negative, larger than the retention); hence for all t_sweep <= t_load a marker the sweeper could remove is below the load cut-off and is refused on an absent key; a deletion at T wins against every older version in either arrival order and stays until a version beating it arrives; at byte level a marker replaces an older stored live version. Correspondence: the real config.Sweeper on boundary and random (retention_days, cut-off) pairs, and the merge stream. 'Markers travel in every snapshot' is C06_complete, 'a missing application key becomes a marker' is C11_capture.",
+            "7/C04",
+            "RetentionDuration()'s float32 multiplication is outside the model: its int64 result is an input, compared differentially. Negative retention_days is outside the domain. Finding D8 (overflow of retention*3) fixed in /repo."),
 }
 
 ALL = ["C%02d" % i for i in range(1, 21)]
